@@ -35,18 +35,19 @@ TInit == /\ InitFrom(InitState(<<"c">>, "absent", NoDF, <<[mode |-> "E", o |-> F
 
 Cfg(r) == InitState(r.ins, r.pre, r.df, <<[mode |-> r.mode, o |-> r.o]>>, <<r.fault>>)
 
-Class(t) == IF t \in {"absent", "src", "bad", "old"} THEN t ELSE SubSeq(t, 1, 1)
+Class(t) == IF t \in {"absent", "src", "bad", "badgen", "old"} THEN t ELSE SubSeq(t, 1, 1)
 
 (* what the child was seen doing must fit what it was started for (no other watched path is
    touched: in particular no temporary of another process), a successful child has written its
-   output, a failing front end has touched nothing, a child killed at once has done nothing *)
+   output, a failing front end has touched no user-visible file (what it does to the driver's own
+   temporary is the driver's business: cleanup removes it), a child killed at once has done nothing *)
 RunOK(c, status) ==
   LET hit == fault[1].t = c.tool /\ fault[1].k = ncall[1][c.tool] IN
   /\ Set(ev.writes) \subseteq {c.out}
   /\ Set(ev.unlinks) \subseteq {c.out}
   /\ Set(ev.reads) \subseteq Set(c.ins) \cup {c.out}
   /\ (status = "ok" /\ c.out # "-") => c.out \in Set(ev.writes)
-  /\ (c.tool = "cc1" /\ status # "ok") => ev.writes = <<>> /\ ev.unlinks = <<>>
+  /\ (c.tool = "cc1" /\ status # "ok" /\ c.out \notin TmpPaths) => ev.writes = <<>> /\ ev.unlinks = <<>>
   /\ hit => ev.writes = <<>> /\ ev.unlinks = <<>> /\ ev.reads = <<>>
 
 Step ==
